@@ -158,6 +158,15 @@ def check(an: Analysis) -> None:
         ev = next((k.value for k in c.keywords if k.arg == "exc_info"), None)
         if not ok or not is_name(ev, "exception"):
             ob.fail(slog, c, "level / *args / exception are not passed on to the logger unchanged")
+        # ... and they are the caller's: neither the format arguments nor the message parameter is re-bound, and the message is
+        # never %-rendered by the library itself (whether message and arguments agree is the logging module's rule - a lone
+        # mapping argument, for instance - and its failure handling; a trial rendering here loses lines that logging accepts)
+        va_ = slog.node.args.vararg.arg if slog.node.args.vararg else ""
+        for x in slog.own_nodes():
+            if isinstance(x, ast.Name) and isinstance(x.ctx, (ast.Store, ast.Del)) and x.id == va_:
+                ob.fail(slog, parent(x) if parent(x) is not None else x, f"`{x.id}` is re-bound before the record is handed to the logger: the logger does not get the caller's format arguments")
+            if isinstance(x, ast.BinOp) and isinstance(x.op, ast.Mod) and any(isinstance(y, ast.Name) and y.id == va_ for y in ast.walk(x.right)):
+                ob.fail(slog, x, "ScopeMetrics.log applies % to the format arguments itself: rendering (and its failure handling) belongs to the logging module, whose rules differ (a single mapping argument, lazy rendering only when a handler accepts the record)")
         if len(c.args) < 2:
             continue
         for named in (True, False):
@@ -180,6 +189,13 @@ def check(an: Analysis) -> None:
                     ob6.fail(slog, c, "a `%` in the scope name or trace id corrupts %-formatting when the message has arguments: the line is lost (e.g. scope '100%s done', ctx.log_info('x %s', 'y'))")
                 if any(x.brace_template or x.pct_template for x in untrusted):
                     ob6.fail(slog, c, "the scope name / trace id is part of a str.format (or %) *template*: a `{`, `}` (or `%`) in a scope name makes every log call - and entering the scope, which logs - raise or mangles the tag")
+
+    # ------------------------------------------------------------------ C19.7 spawned tasks log under the spawning scope
+    # ("... in spawned tasks"): the task must run in a copy of the spawner's context, which is where the current metrics scope lives
+    from ..engine import borrow
+    from . import c03
+
+    borrow(an, c03.check, {"C03.3": "C19.7"})
 
 
 class _Leaf:
